@@ -5,7 +5,8 @@ from .. import conncheck, framework as F, ref_ws, scen
 from ..ref_ws import SFrame, TEXT, BINARY, CONT, PING, PONG, CLOSE
 
 SERVER_FIX = ['eof', 'text', 'text-euro', 'binary', 'empty-text', 'frag-text', 'frag-bin', 'frag-cont', 'frag-end',
-              'ping', 'ping-empty', 'pong', 'two', 'ping-ping', 'ping-text-close', 'close-1000', 'close-empty']
+              'ping', 'ping-empty', 'pong', 'two', 'ping-ping', 'ping-text-close', 'close-1000', 'close-empty', 'close-123', 'ping-125',
+              'ctext', 'cfrag-text']
 SIZES = [0, 1, 125, 126, 127, 65535, 65536, 65537]
 
 
@@ -51,6 +52,7 @@ def fragmentations(n, max_parts=3):
     return uniq
 
 
+EURO_A = '\u20ac\u20ac\u20ac'.encode('utf-8')
 GAPS = {'none': [], 'ping': [SFrame(PING, b'g')], 'ping+pong': [SFrame(PING, b''), SFrame(PONG, b'xyz')],
         'ping125': [SFrame(PING, bytes(range(125)))]}
 
@@ -82,6 +84,17 @@ def control_message(name):
 
 TRAILER = [SFrame(BINARY, b'\xee' * 8)]
 
+# ---- two connections alive in one process, their loops interleaved in one thread
+PAIR_A = {
+    'text+ping': [SFrame(TEXT, b'alpha alpha alpha'), SFrame(PING, b'ping-from-server-A'), SFrame(BINARY, b'\x0a' * 9)],
+    'fragments': [SFrame(TEXT, EURO_A[:4], fin=0), SFrame(PING, b'a'), SFrame(CONT, EURO_A[4:]), SFrame(BINARY, b'\x0a\x0b'), SFrame(PONG, b'A-pong')],
+    'many': [SFrame(TEXT, b'a1'), SFrame(TEXT, b'a2'), SFrame(PING, b'a3'), SFrame(TEXT, b'a4'), SFrame(CLOSE, ref_ws.close_payload(1000, b'A closes'))],
+}
+PAIR_B = {
+    'long-ping': [SFrame(PING, b'PING-FROM-SERVER-B-' + b'B' * 60), SFrame(TEXT, b'bravo ' * 20), SFrame(BINARY, bytes(range(200)))],
+    'short': [SFrame(TEXT, b'b'), SFrame(PING, b''), SFrame(CLOSE, ref_ws.close_payload(1001, b'B closes'))],
+}
+
 
 class C01(conncheck.ConnCheck):
     pid = 'C01'
@@ -95,8 +108,8 @@ class C01(conncheck.ConnCheck):
         'events are held until the connection has ended and compared with a copy taken when they were yielded (aliasing of the reused receive buffer)',
         'transport is lv.world: one server write = one read unit, except that a unit larger than the 64 KiB receive size is cut by recv_into',
     ]
-    kinds = ('events-differ', 'unexpected-event', 'events-missing')
-    expect_sites = ('fixpoint', 'enum', 'len16', 'len64', 'nonminimal', 'empty-fragment', 'control-in-gap', 'cross-64k')
+    kinds = ('events-differ', 'unexpected-event', 'events-missing')   # + cross-connection:* from the two-connection jobs
+    expect_sites = ('two-connections', 'fixpoint', 'enum', 'len16', 'len64', 'nonminimal', 'empty-fragment', 'control-in-gap', 'cross-64k')
 
     def rule(self, tier):
         return ('(a) alphabet %s, no application action, depth unbounded (fix-point); (b) single messages: sizes %s x {text,binary} x all legal length forms '
@@ -109,7 +122,7 @@ class C01(conncheck.ConnCheck):
 
     def jobs(self, tier, seed):
         jobs = [{'k': 'fix', 'cfg': {'name': 'fix/' + hs, 'server': SERVER_FIX, 'handshake': [hs], 'depth': None, 'max_dev': 0}}
-                for hs in ('hs-ok', 'hs-with-frame', 'hs-deflate')]
+                for hs in ('hs-ok', 'hs-with-frame', 'hs-deflate', 'hs-deflate-nct')]
         jobs.append({'k': 'fix', 'cfg': {'name': 'fix/tls', 'url': 'wss://example.com/x', 'server': SERVER_FIX, 'handshake': ['hs-ok', 'hs-deflate'],
                                          'depth': None, 'max_dev': 0}})
         # (b1) single messages, everything
@@ -122,6 +135,9 @@ class C01(conncheck.ConnCheck):
         L = 3 if tier == 'thorough' else 2
         for first in range(len(menu)):
             jobs.append({'k': 'seq', 'first': first, 'len': L})
+        for a in sorted(PAIR_A):
+            for b in sorted(PAIR_B):
+                jobs.append({'k': 'pair-conn', 'a': a, 'b': b})
         return jobs
 
     def reduced_menu(self):
@@ -198,7 +214,94 @@ class C01(conncheck.ConnCheck):
         for kind, msg in problems:
             res.violate('C01:%s' % kind, '%s [messages %s, delivery %s]' % (msg, [f.brief() for f in frames][:12], mode), case)
 
+    # ------------------------------------------------------------------ two connections
+    def run_two(self, a, b, step_at, b_mode='frames'):
+        """Connection A gets all its frames in one read; connection B is advanced by one event whenever A has yielded an event whose
+        index is in step_at ('all': after every event). Returns ({port: events}, {port: client bytes after the request})."""
+        from .. import world as W
+        fa, fb = PAIR_A[a], PAIR_B[b]
+        scripts = {1001: [W.HANDSHAKE(b''), b''.join(f.encode() for f in fa)],
+                   1002: [W.HANDSHAKE(b'')] + ([b''.join(f.encode() for f in fb)] if b_mode == 'one' else [f.encode() for f in fb])}
+        pos = {}
+
+        def server(world, conn):
+            port = conn.peer[1]
+            i = pos.get(port, 0)
+            pos[port] = i + 1
+            steps = scripts[port]
+            if i < len(steps):
+                s = steps[i]
+                return W.Data(s) if callable(s) or isinstance(s, bytes) else s
+            return W.Eof()
+        world = W.World(server, max_waits=120)
+        obs = {1001: [], 1002: []}
+        with world:
+            wa = W.L_websocket.WebSocket('ws://a.example:1001/x', proxies={})
+            wb = W.L_websocket.WebSocket('ws://b.example:1002/y', proxies={})
+            ga = wa.connect(poll=5, ping_rate=0, close_timeout=None)
+            gb = wb.connect(poll=5, ping_rate=0, close_timeout=None)
+            held = []
+
+            def note(port, ev):
+                if ev.name != 'poll':
+                    held.append((port, ev, ref_ws.observe_event(ev)))
+
+            def step_b():
+                try:
+                    note(1002, next(gb))
+                except StopIteration:
+                    pass
+            k = 0
+            for ev in ga:
+                note(1001, ev)
+                if step_at == 'all' or k in step_at:
+                    step_b()
+                k += 1
+                if k > 200:
+                    raise W.HarnessError('connection A does not end')
+            for ev in gb:
+                note(1002, ev)
+            # payloads are read again at the very end: an event must not change after it was yielded
+            for port, ev, first in held:
+                now = ref_ws.observe_event(ev)
+                obs[port].append(first if now == first else ('CHANGED', first, now))
+        wires = {}
+        for c in world.conns:
+            if c.peer is not None:
+                # decoded frames, not raw bytes: masking keys are drawn from one process-wide source and legitimately differ
+                frames, garbage = ref_ws.decode_client_stream(ref_ws.split_http_request(world.wire(c.idx))[1])
+                wires[c.peer[1]] = [(f.opcode, f.payload, f.rsv1, tuple(f.problems)) for f in frames] + ([('garbage', garbage)] if garbage else [])
+        return obs, wires, k
+
+    def run_pair_job(self, job, res):
+        a, b = job['a'], job['b']
+        res.covered.add('two-connections')
+        base_obs, base_wire, n = self.run_two(a, b, ())         # A runs to its end before B starts moving
+        variants = [('all', m) for m in ('frames', 'one')] + [((i,), m) for i in range(n) for m in ('frames', 'one')] + \
+                   [((i, i + 1), 'frames') for i in range(n - 1)]
+        for step_at, mode in variants:
+            if mode == 'one':
+                ref_obs, ref_wire, _ = self.run_two(a, b, (), 'one')
+            else:
+                ref_obs, ref_wire = base_obs, base_wire
+            obs, wires, _ = self.run_two(a, b, step_at, mode)
+            res.executions += 1
+            res.n_transitions += n
+            res.outcomes[repr(('pair', a, b, mode, step_at))] += 1
+            case = {'k': 'pair-conn', 'a': a, 'b': b, 'step_at': step_at if step_at == 'all' else list(step_at), 'mode': mode}
+            for port, who in ((1001, 'A'), (1002, 'B')):
+                if obs[port] != ref_obs[port]:
+                    res.violate('C01:cross-connection:events', 'connection %s delivered %r when the other connection\'s loop is advanced at %r; alone: %r'
+                                % (who, obs[port][:8], step_at, ref_obs[port][:8]), case)
+                elif wires.get(port) != ref_wire.get(port):
+                    res.violate('C01:cross-connection:wire', 'connection %s wrote %r when interleaved at %r; alone: %r'
+                                % (who, [f[:2] for f in wires.get(port, [])], step_at, [f[:2] for f in ref_wire.get(port, [])]), case)
+        res.samples.append({'pair': [a, b], 'events_A': [o[0] for o in base_obs[1001]], 'events_B': [o[0] for o in base_obs[1002]]})
+        return res
+
     def run_job(self, job):
+        if job['k'] == 'pair-conn':
+            return self.run_pair_job(job, F.JobResult())
         if job['k'] == 'fix':
             res = super(C01, self).run_job({'cfg': job['cfg']})
             res.covered.add('fixpoint')
@@ -235,6 +338,21 @@ class C01(conncheck.ConnCheck):
         return res
 
     def replay(self, case, verbose=True):
+        if case.get('k') == 'pair-conn':
+            res = F.JobResult()
+            step_at = case['step_at'] if case['step_at'] == 'all' else tuple(case['step_at'])
+            ref_obs, ref_wire, _ = self.run_two(case['a'], case['b'], (), case['mode'])
+            obs, wires, _ = self.run_two(case['a'], case['b'], step_at, case['mode'])
+            if verbose:
+                print('alone      :', ref_obs)
+                print('interleaved:', obs)
+            out = []
+            for port in (1001, 1002):
+                if obs[port] != ref_obs[port]:
+                    out.append(F.Violation('C01:cross-connection:events', 'differs', case))
+                elif wires.get(port) != ref_wire.get(port):
+                    out.append(F.Violation('C01:cross-connection:wire', 'differs', case))
+            return out
         if 'cfg' in case:
             return super(C01, self).replay(case, verbose)
         run, problems, frames = self.run_seq(case['items'], case['mode'], base_salt=case.get('salt', 0))
